@@ -1,5 +1,6 @@
 (* C01 driver.  obs = per instance:  I <codes> B... L e f
-   spec_ok (the property on the implementation alone): every instance accepted every event and all
+   spec_ok (the property on the implementation alone): every instance accepted every event (required
+   when the input is valid, i.e. the reference accepts every event; shrunk inputs may not be) and all
    instances emitted the same blocks / last decided frame.
    model_obs: the extracted reference (a function of the event SET, hence the same for every
    order): all events accepted, blocks = blocks_spec. *)
@@ -31,7 +32,7 @@ let eval inp obs =
       | _ -> false) insts in
   let same = (match tails with [] -> true | t :: r -> List.for_all (fun x -> x = t) r) in
   { default_verdict with model_obs = m;
-    spec_ok = Some (accepted && same && List.length insts = k);
+    spec_ok = Some ((accepted || not all_ok) && same && List.length insts = k);
     model_spec_ok = all_ok;
     nontrivial = (bs <> []);
     note = (if not same then "instances disagree" else if not accepted then "an instance rejected an event" else "") }
